@@ -364,7 +364,9 @@ bool kirsch_bounded_kfifo_queue<T, Policies...>::not_in_valid_region(uint64_t ta
   if (!wrap_around) {
     return tail_old < tail_current || head_current < tail_old;
   }
-  return tail_old < tail_current && head_current < tail_old;
+  // the valid region wraps around: [head_current, queue_size) and [0, tail_current]
+  // -> everything strictly between tail_current and head_current is outside
+  return tail_current < tail_old && tail_old < head_current;
 }
 } // namespace xenium
 #ifdef _MSC_VER
